@@ -296,28 +296,37 @@ def debitAcct (tier : Denom → Bool) (acc : Option Account) (ac : Coins) : Exce
       | .error f => .error f
       | .ok new => if coinsValid new then .ok (some new) else .error (.err "insufficient")
 
+/-- the account-object writes of `subtract`'s success path: first the collapsed
+vesting account (if `upgraded`), then `setAccountTierCoins(ctx, acc, addr, newCoins)`
+when the debit has an account-tier part. -/
+def subAcctWrites (s : State) (acc : Option Account) (a : Addr) (upgraded : Bool) (aw : Option Coins) : State :=
+  let s1 := if upgraded then (match acc with | some x => setAccount s x | none => s) else s
+  match aw with
+  | none => s1
+  | some new =>
+    match acc with
+    | some x => setAccount s1 { x with coins := new }
+    | none => let r := ensureAccount s1 a; setAccount r.2 { r.1 with coins := new }
+
+/-- `acc != nil && acc.GetAddress() != addr`. -/
+def addrMismatch (acc : Option Account) (a : Addr) : Bool :=
+  match acc with
+  | some x => x.addr != a
+  | none => false
+
 /-- `BankKeeper.subtract`. `acc` is the account as the caller read (and possibly
-upgraded) it. -/
+upgraded) it.  Every check precedes every write. -/
 def subtractCore (tier : Denom → Bool) (s : State) (acc : Option Account) (a : Addr) (amt : Coins)
     (upgraded : Bool) : State × Option Fail :=
   if !coinsValid amt then (s, some (.err "invalid-coins-plain"))
-  else if (match acc with | some x => x.addr != a | none => false) then (s, some (.err "account-mismatch"))
+  else if addrMismatch acc a then (s, some (.err "account-mismatch"))
   else
     match debitSplit s a (amt.filter (fun c => !tier c.denom)) with
     | .error f => (s, some f)
     | .ok debited =>
       match debitAcct tier acc (amt.filter (fun c => tier c.denom)) with
       | .error f => (s, some f)
-      | .ok aw =>
-        let s1 := if upgraded then (match acc with | some x => setAccount s x | none => s) else s
-        let s2 := match aw with
-          | none => s1
-          | some new =>
-            -- setAccountTierCoins(ctx, acc, addr, newCoins)
-            match acc with
-            | some x => setAccount s1 { x with coins := new }
-            | none => let r := ensureAccount s1 a; setAccount r.2 { r.1 with coins := new }
-        (writeSplits s2 a debited, none)
+      | .ok aw => (writeSplits (subAcctWrites s acc a upgraded aw) a debited, none)
 
 /-- `SubtractCoins` (`vest = true`) / `subtractCoinsUnrestricted` (`vest = false`). -/
 def subtractCoins (tier : Denom → Bool) (s : State) (a : Addr) (amt : Coins) (vest : Bool) :
